@@ -42,7 +42,7 @@ def l2_obligations(repo: Repo, chk: Check) -> None:
     f = repo.func("_gkdi.compute_l2_key")
     chk.analysed(f)
     world = World(repo)
-    certs = [c for c in LoopChecker(world, f).all() if isinstance(c.node, ast.While)]
+    certs = [c for c in LoopChecker(world, f).all() if isinstance(c.node, (ast.While, ast.For))]
     chk.count("chain walk loops", len(certs))
     for c in certs:
         site = Site.of(f, c.node, c.text)
@@ -55,7 +55,7 @@ def l2_obligations(repo: Repo, chk: Check) -> None:
                 n = int(c.bound.split()[1])
             except ValueError:
                 n = None
-        ok = c.kind == "V-COUNT-DOWN" and n is not None and n <= 31
+        ok = c.kind in ("V-COUNT-DOWN", "V-RANGE") and n is not None and n <= 31
         chk.ob("O1", site, ok, f"{c.kind}: {c.why} ({c.bound})" if ok else f"loop is certified {c.kind} but not bounded by 31 steps ({c.why}; bound {c.bound})")
     chk.require_min("chain walk loops", 2)
     cover_guard(repo, chk, f)
@@ -79,7 +79,7 @@ def cover_guard(repo: Repo, chk: Check, f: Func) -> None:
     env_l2 = [k for k, v in al.items() if v.endswith(".l2")] + [v for v in al.values() if v.endswith(".l2")]
     fa = {**{n: "l1" for n in env_l1}, **{n: "l2" for n in env_l2}}
     fb = {f.params[1]: "l1", f.params[2]: "l2"}
-    first_loop = min([n.lineno for n in body_nodes(f.node) if isinstance(n, ast.While)] or [10**9])
+    first_loop = min([n.lineno for n in body_nodes(f.node) if isinstance(n, (ast.While, ast.For))] or [10**9])
     guards = [s for s in f.node.body if isinstance(s, ast.If) and s.lineno < first_loop and s.body and isinstance(s.body[-1], ast.Raise) and not s.orelse]
     order_guards = []
     for gd in guards:
@@ -199,7 +199,7 @@ def recipe_l2(repo: Repo, chk: Check, f: Func) -> None:
     g = build(f.node)
     rd = ReachingDefs(f, g)
     calls = _kdf_calls(f)
-    loops = sorted([n for n in body_nodes(f.node) if isinstance(n, ast.While)], key=lambda n: n.lineno)
+    loops = sorted([n for n in body_nodes(f.node) if isinstance(n, (ast.While, ast.For))], key=lambda n: n.lineno)
     if len(calls) != 3 or len(loops) != 2:
         raise AnalysisError(f"compute_l2_key: expected 3 kdf calls and 2 loops, found {len(calls)} and {len(loops)}")
     al = _aliases(f)
@@ -240,9 +240,14 @@ def recipe_l2(repo: Repo, chk: Check, f: Func) -> None:
     chk.ob("O3", Site.of(f, loops[1], "L2 walk order"), _dec_before(loops[1], l2v, walk2), "index decremented before the derivation")
     # loop conditions compare the walked index with the requested one of the same level
     for lp, var, req in ((loops[0], l1v, f.params[1]), (loops[1], l2v, f.params[2])):
-        t_ = lp.test
-        okc = isinstance(t_, ast.Compare) and unparse(t_.left) == var and unparse(t_.comparators[0]) == req
-        chk.ob("O3", Site.of(f, t_), okc, f"walks {var} down to {req}" if okc else f"loop condition '{unparse(t_)}' does not walk {var} down to {req}")
+        if isinstance(lp, ast.While):
+            t_: ast.expr = lp.test
+            okc = isinstance(t_, ast.Compare) and len(t_.ops) == 1 and ((isinstance(t_.ops[0], ast.Gt) and unparse(t_.left) == var and unparse(t_.comparators[0]) == req) or (isinstance(t_.ops[0], ast.Lt) and unparse(t_.left) == req and unparse(t_.comparators[0]) == var))
+        else:
+            # for var in range(var - 1, req - 1, -1): visits var-1, ..., req like `while var > req: var -= 1`
+            t_ = lp.iter
+            okc = unparse(lp.target) == var and isinstance(t_, ast.Call) and unparse(t_.func) == "range" and [unparse(a) for a in t_.args] == [f"{var} - 1", f"{req} - 1", "-1"]
+        chk.ob("O3", Site.of(f, t_), okc, f"walks {var} down to {req}" if okc else f"loop '{unparse(t_)}' does not walk {var} down to {req}")
     rets = [n for n in body_nodes(f.node) if isinstance(n, ast.Return)]
     okr = len(rets) == 1 and unparse(rets[0].value) == l2k
     chk.ob("O3", Site.of(f, rets[0] if rets else None, None if rets else "return"), okr, "returns the L2 key")
@@ -257,7 +262,10 @@ def _assigned_to(call: ast.Call, scope: ast.AST) -> t.Optional[str]:
     return None
 
 
-def _dec_before(loop: ast.While, var: str, call: ast.Call) -> bool:
+def _dec_before(loop: t.Union[ast.While, ast.For], var: str, call: ast.Call) -> bool:
+    if isinstance(loop, ast.For):
+        # the loop variable already holds the decremented index in the body; it must not be changed again before the call
+        return unparse(loop.target) == var and not any(isinstance(s, (ast.AugAssign, ast.Assign)) and var in [unparse(x) for x in ([s.target] if isinstance(s, ast.AugAssign) else s.targets)] for s in loop.body)
     dec = [s for s in loop.body if isinstance(s, ast.AugAssign) and unparse(s.target) == var and isinstance(s.op, ast.Sub) and unparse(s.value) == "1"]
     return len(dec) == 1 and dec[0].lineno < call.lineno
 
@@ -314,18 +322,29 @@ def kdf_context(repo: Repo, chk: Check) -> None:
 
 
 def kdf_wrapper(repo: Repo, chk: Check) -> None:
+    from sa.pathsum import Summary
+
+    from .util import ev_args, recv_of
+
     f = repo.func("_crypto.kdf")
     chk.analysed(f)
-    ctor = [n for n in body_nodes(f.node) if isinstance(n, ast.Call) and unparse(n.func) == "KBKDFHMAC"]
-    if len(ctor) != 1:
-        raise AnalysisError("_crypto.kdf: KBKDFHMAC construction changed")
-    kws = {k.arg: unparse(k.value) for k in ctor[0].keywords if k.arg}
-    want = {"algorithm": f.params[0], "mode": "Mode.CounterMode", "length": f.params[4], "label": f.params[2], "context": f.params[3], "rlen": "4", "llen": "4", "location": "CounterLocation.BeforeFixed", "fixed": "None"}
-    for k, v in want.items():
-        chk.ob("O3", Site.of(f, ctor[0], f"KBKDFHMAC({k}=...)"), kws.get(k) == v, f"{k}={v}" if kws.get(k) == v else f"SP800-108 parameter {k} is {kws.get(k)}, expected {v}")
-    der = [n for n in body_nodes(f.node) if isinstance(n, ast.Call) and isinstance(n.func, ast.Attribute) and n.func.attr == "derive"]
-    okd = len(der) == 1 and unparse(der[0].args[0]) == f.params[1]
-    chk.ob("O3", Site.of(f, der[0] if der else None, None if der else "derive"), okd, "derives from the secret parameter")
+    summ = Summary(f, ["algorithm", "secret", "label", "context", "length"])
+    if not summ.returning():
+        raise AnalysisError("_crypto.kdf: no returning path")
+    want = {"algorithm": "algorithm", "mode": "Mode.CounterMode", "length": "length", "label": "label", "context": "context", "rlen": "4", "llen": "4", "location": "CounterLocation.BeforeFixed", "fixed": "None"}
+    for ps in summ.returning():
+        ctor = [c for c in ps.calls("KBKDFHMAC")]
+        if len(ctor) != 1:
+            raise AnalysisError("_crypto.kdf: KBKDFHMAC construction changed")
+        kws = {}
+        for k, v in ev_args(repo, f, ctor[0], ["algorithm", "mode", "length", "rlen", "llen", "location", "label", "context", "fixed"]).items():
+            okf, val = repo.try_fold(v, f.mod)
+            kws[k] = repr(val) if okf and isinstance(val, int) and not isinstance(val, bool) else ps.text(v)
+        for k, v in want.items():
+            chk.ob("O3", Site.of(f, ctor[0].node, f"KBKDFHMAC({k}=...)"), kws.get(k) == v, f"{k}={v}" if kws.get(k) == v else f"SP800-108 parameter {k} is {kws.get(k)}, expected {v}")
+        der = [c for c in ps.calls("derive") if ps.key(recv_of(t.cast(ast.Call, c.tree))) == ps.key(ctor[0].tree)]
+        okd = len(der) == 1 and [ps.text(a) for a in ev_args(repo, f, der[0], ["key_material"]).values()] == ["secret"] and ps.key(ps.value) == ps.key(der[0].tree)
+        chk.ob("O3", Site.of(f, der[0].node if der else None, None if der else "derive"), okd, "derives from the secret parameter and returns the result")
 
 
 # ------------------------------------------------------------------------- O4
@@ -372,8 +391,13 @@ def conventions(repo: Repo, chk: Check, f: Func) -> None:
         return None
 
     # reseed flag initial value
-    init = [s for s in f.node.body if isinstance(s, ast.Assign) and unparse(s.targets[0]) == "reseed_l2"]
-    ifs = [n for n in body_nodes(f.node) if isinstance(n, ast.If) and unparse(n.test) == "reseed_l2"]
+    # the reseed flag: the name tested by the `if` around the kdf call that is outside the two walks
+    loops_ = [n for n in body_nodes(f.node) if isinstance(n, (ast.While, ast.For))]
+    outside = [c for c in _kdf_calls(f) if not any(any(x is c for x in ast.walk(lp)) for lp in loops_)]
+    flag_ifs = [n for n in body_nodes(f.node) if isinstance(n, ast.If) and isinstance(n.test, ast.Name) and outside and any(x is outside[0] for x in ast.walk(n))]
+    flag = flag_ifs[-1].test.id if flag_ifs else "reseed_l2"  # type: ignore[attr-defined]
+    init = [s for s in f.node.body if isinstance(s, ast.Assign) and unparse(s.targets[0]) == flag]
+    ifs = [n for n in body_nodes(f.node) if isinstance(n, ast.If) and unparse(n.test) == flag]
     if not init or not ifs:
         # a different formulation: require that the reseed derivation is guarded by an equivalent condition
         chk.ob("O4", Site.of(f, construct="reseed condition"), False, "the L2 reseed is not controlled by a flag initialised from the envelope position")
